@@ -40,7 +40,7 @@ pub fn plan() -> Plan {
         quick_histories: 1200,
         thorough_histories: 240_000,
         s5: None,
-        enumerate_session_end: Some((12, 1500, {
+        enumerate_session_end: Some((40, 1500, {
             let mut e = base_profile("c08-enumerated");
             e.persistent_pm = 1000;
             e.clients = (2, 4);
